@@ -41,6 +41,10 @@ type tcase struct {
 	Step  *int64 `json:"step"`
 	Mode  string `json:"mode"`
 	Pre   int    `json:"pre,omitempty"` // history mode: index of the operation applied to the str before it is indexed
+	// reeval mode: one slice expression inside a function, evaluated once per value of Vals with the variable
+	// bound (Tpl says which bound is the variable); every evaluation must give what that slice alone gives
+	Tpl  int      `json:"tpl,omitempty"`
+	Vals []*int64 `json:"vals,omitempty"`
 }
 
 var multi = []rune{'é', '日', '𝄞', 'a', 'ß', '語', '😀', 'z', 'Ω'}
@@ -395,6 +399,105 @@ func run(c *core.Ctx) {
 			}
 		}
 	}, histSrc, func(t tcase, o panrun.Obs) { e.judgeHist(t, o) })
+	// one slice expression with a variable bound, evaluated several times with different values
+	tk.Batched(c, 300, "", func(emit func(tcase)) { genReeval(c.Pick(2, 3), emit) }, reevalSrc, func(t tcase, o panrun.Obs) { e.judgeReeval(t, o) })
+}
+
+// ---------------------------------------------------------------- one slice expression evaluated repeatedly
+
+type sliceTpl struct {
+	start, stop, step string // "" omitted, "v" the variable, else an int literal
+}
+
+var sliceTpls = []sliceTpl{
+	{"", "", "v"}, {"1", "", "v"}, {"", "3", "v"}, {"1", "3", "v"}, {"0", "4", "v"}, {"3", "0", "v"},
+	{"v", "", ""}, {"v", "", "2"}, {"v", "", "-1"}, {"v", "3", ""},
+	{"", "v", ""}, {"", "v", "-1"}, {"1", "v", "2"},
+}
+
+func (t tcase) reevalAt(v *int64) tcase {
+	tp := sliceTpls[t.Tpl]
+	bound := func(b string) *int64 {
+		switch b {
+		case "":
+			return nil
+		case "v":
+			return v
+		}
+		var x int64
+		fmt.Sscan(b, &x)
+		return &x
+	}
+	r := tcase{Kind: t.Kind, N: t.N, Start: bound(tp.start), Stop: bound(tp.stop), Step: bound(tp.step)}
+	return r
+}
+
+func reevalSrc(t tcase) string {
+	tp := sliceTpls[t.Tpl]
+	e := "s[" + tp.start + ":" + tp.stop
+	if tp.step != "" {
+		e += ":" + tp.step
+	}
+	e += "]"
+	var calls []string
+	for _, v := range t.Vals {
+		calls = append(calls, fmt.Sprintf(`nil.try.{|u| f(%s)}.or("ERR")`, pstr(v)))
+	}
+	return fmt.Sprintf("s := %s\nf := {|v| %s}\n[%s]", t.recvSrc(), e, strings.Join(calls, ", "))
+}
+
+func reevalExpect(t tcase) string {
+	var parts []string
+	for _, v := range t.Vals {
+		one := t.reevalAt(v)
+		ref := reference(one)
+		if ref.zeroStep {
+			parts = append(parts, `"ERR"`)
+			continue
+		}
+		parts = append(parts, expectRepr(one, ref.pos))
+	}
+	return "[" + strings.Join(parts, ", ") + "]"
+}
+
+func genReeval(depth int, emit func(tcase)) {
+	vals := []*int64{ip(1), ip(-1), ip(2), ip(-2), ip(0), ip(3), nil}
+	for _, kind := range []string{"arr", "ascii"} {
+		for tpl := range sliceTpls {
+			var rec func(cur []*int64)
+			rec = func(cur []*int64) {
+				if len(cur) >= 2 {
+					emit(tcase{Kind: kind, N: 4, Mode: "reeval", Tpl: tpl, Vals: append([]*int64{}, cur...)})
+				}
+				if len(cur) == depth {
+					return
+				}
+				for _, v := range vals {
+					rec(append(cur, v))
+				}
+			}
+			rec(nil)
+		}
+	}
+}
+
+func (e *env) judgeReeval(t tcase, o panrun.Obs) {
+	c := e.c
+	c.Eval(1)
+	c.Validated(1)
+	c.Nontrivial(1)
+	if o.Kind == "syntax" {
+		c.HarnessError("reeval case does not parse: %s: %s", reevalSrc(t), o.ErrMsg)
+		return
+	}
+	want := reevalExpect(t)
+	c.Outcome("reeval:" + o.Kind)
+	if o.Kind == "value" && o.Repr == want {
+		return
+	}
+	tp := sliceTpls[t.Tpl]
+	c.Violation(core.Violation{Key: "same-expression-evaluated-again/" + t.Kind + "/[" + tp.start + ":" + tp.stop + ":" + tp.step + "]", Case: core.JSON(t), Desc: strings.ReplaceAll(reevalSrc(t), "\n", "; "),
+		Expected: want + " (each evaluation gives what that slice gives on its own)", Observed: o.Short(), Repro: "(" + strings.ReplaceAll(reevalSrc(t), "\n", "; ") + ").p\n"})
 }
 
 // ---------------------------------------------------------------- history: the str is used by other operations first
@@ -446,6 +549,11 @@ func replay(c *core.Ctx, raw json.RawMessage) {
 		return
 	}
 	e := newEnv(c)
+	if t.Mode == "reeval" {
+		obs := c.R().Thunks("", []string{reevalSrc(t)}, "")
+		e.judgeReeval(t, obs[0])
+		return
+	}
 	if t.Mode == "history" {
 		obs := c.R().Thunks("", []string{histSrc(t)}, "")
 		e.judgeHist(t, obs[0])
